@@ -186,6 +186,7 @@ with ev_elem (e : elem) {struct e} : option jt * option bytes :=   (* the elemen
   | ERefl r => match refl_atom r with inl a => (Some (TA a), None) | inr msg => (None, Some msg) end
   | EObj m => let '(v, err) := ev_obj m in (Some v, err)
   | EArr a => let '(v, err) := ev_arr a in (Some v, err)
+  | EFail msg => (None, Some msg)
   end.
 
 Definition ev_flds (fs : list fld) (o : octx) : octx := fold_left (fun o f => ev_fld f o) fs o.
